@@ -78,6 +78,9 @@
 //                                  TotalWeight{at_height: H}, Member{addr, at_height: H} for addr ∈ U
 //   bank=<addr>:<ucosm>:<uatom>,…  addr ∈ U      cw20=<addr>:<balance>,…  addr ∈ U
 //   allow=<owner>:<amount>,…       cw20 Allowance{owner, spender: flex}, owner ∈ pool
+//   gmlog=<addr>@<height>:<old|->,…   gtlog=<height>:<old|->,…     raw dumps of the group's MEMBERS / TOTAL snapshot
+//                                  changelogs (by address, then height): with them the observation determines the
+//                                  group state (model resynchronisation, Driver/Common)
 use crate::common::*;
 use cosmwasm_std::testing::MockApi;
 use cosmwasm_std::{
@@ -707,8 +710,30 @@ impl FlexScen {
             }
         }
         pagediff.dedup();
+        // raw dumps of the group's two snapshot changelogs (`snap` only probes them around the proposals' start
+        // heights): with them the observation determines the group state completely (model resynchronisation)
+        let mut graw = MemStore::default();
+        for (k, v) in app.dump_wasm_raw(group) {
+            graw.data.insert(k, v);
+        }
+        let mut gmlog: Vec<(String, u64, Option<u64>)> = cw4_group::state::MEMBERS
+            .changelog()
+            .range(&graw, None, None, cosmwasm_std::Order::Ascending)
+            .filter_map(|r| r.ok())
+            .map(|((a, h), cs)| (a.to_string(), h, cs.old))
+            .collect();
+        gmlog.sort();
+        let gmlog: Vec<String> = gmlog.iter().map(|(a, h, o)| format!("{}@{}:{}", a, h, opt_str(o))).collect();
+        let mut gtlog: Vec<(u64, Option<u64>)> = cw4_group::state::TOTAL
+            .changelog()
+            .range(&graw, None, None, cosmwasm_std::Order::Ascending)
+            .filter_map(|r| r.ok())
+            .map(|(h, cs)| (h, cs.old))
+            .collect();
+        gtlog.sort();
+        let gtlog: Vec<String> = gtlog.iter().map(|(h, o)| format!("{}:{}", h, opt_str(o))).collect();
         format!(
-            "obs pagediff={} thr={} cfg={} props={} rprops={} pprops={} raw={} ph={} votes={} pvotes={} voters={} pvoters={} members={} gtotal={} gadmin={} ghooks={} snap={} bank={} cw20={} allow={}",
+            "obs pagediff={} thr={} cfg={} props={} rprops={} pprops={} raw={} ph={} votes={} pvotes={} voters={} pvoters={} members={} gtotal={} gadmin={} ghooks={} snap={} bank={} cw20={} allow={} gmlog={} gtlog={}",
             pagediff.join(","),
             thr,
             cfg,
@@ -728,7 +753,9 @@ impl FlexScen {
             snap.join(","),
             bank.join(","),
             cw20.join(","),
-            allow.join(",")
+            allow.join(","),
+            gmlog.join(","),
+            gtlog.join(",")
         )
     }
 
